@@ -68,6 +68,8 @@ func (w *world) coqNode(n *Node) string {
 		return "Callback"
 	case KJoin:
 		return "Join"
+	case KWait:
+		return "Blocking"
 	}
 	return "Unknown"
 }
@@ -137,6 +139,8 @@ func (w *world) txtNode(n *Node, ind string, b *strings.Builder) {
 		p("CALLBACK " + n.Note)
 	case KJoin:
 		p("JOIN (WaitGroup.Wait)")
+	case KWait:
+		p("BLOCKING " + n.Note)
 	case KUnknown:
 		p("UNKNOWN " + n.Note)
 	}
@@ -197,6 +201,9 @@ func (w *world) exclCoq(name string, es []exclEntry, warn *[]string) string {
 				fids = append(fids, f.outID)
 			}
 		}
+		if len(fids) == 0 && e.Generated {
+			continue
+		}
 		if len(fids) == 0 {
 			*warn = append(*warn, fmt.Sprintf("%s: function %q is not in the facts (stale entry)", name, e.Func))
 			continue
@@ -205,6 +212,9 @@ func (w *world) exclCoq(name string, es []exclEntry, warn *[]string) string {
 		switch e.Kind {
 		case "loc":
 			id, ok := w.locID[e.Item]
+			if !ok && e.Generated {
+				continue
+			}
 			if !ok {
 				*warn = append(*warn, fmt.Sprintf("%s: location %q of %q is not in the facts (stale entry)", name, e.Item, e.Func))
 				continue
@@ -212,6 +222,8 @@ func (w *world) exclCoq(name string, es []exclEntry, warn *[]string) string {
 			item = fmt.Sprintf("XLoc %d", id)
 		case "yield":
 			item = "XYield"
+		case "block":
+			item = "XBlock"
 		case "order":
 			id, ok := w.mutexID[e.Item]
 			if !ok {
